@@ -732,3 +732,20 @@ Proof.
   intros [H [Hx [Hy Hz]]]. unfold shape_at, level_cells.
   now rewrite !iter_step_closed by assumption.
 Qed.
+
+(* --- directions advance once per fine-grid cycle, also across the calls of a
+   preconditioner (flag read off solver.py) ---------------------------------- *)
+Lemma dirs_flag_holds : dirs_advance_before_terminate = true.
+Proof. reflexivity. Qed.
+
+Theorem calls_advance_once_per_cycle c psc plr m n :
+  outer_cycles_calls c psc plr m n = outer_cycles c psc plr n.
+Proof.
+  unfold outer_cycles_calls, outer_cycles, dir_index. rewrite dirs_flag_holds. reflexivity.
+Qed.
+
+(* if the last cycle of a call did not advance them, the second call of a
+   three-cycle pattern would start with the direction the first call ended with *)
+Lemma stale_handover_refuted :
+  exists m k, dir_at [1; 2; 3] (dir_index_of false m k) <> dir_at [1; 2; 3] k.
+Proof. exists 3, 3. vm_compute. discriminate. Qed.
